@@ -395,6 +395,14 @@ func (s *c05Spec) check(seq []c05Op, logq *[]c05Logged) (vs []eng.Violation) {
 	b := s.write(seq)
 	s.checkViews("buffer", b, want, chunks, lbl, &vs)
 	s.checkViews("buffer-clone", b.Clone(), want, chunks, lbl, &vs)
+	// a clone is independent of its original: the original is recycled afterwards
+	orig := s.write(seq)
+	cl := orig.Clone()
+	orig.Reset("col")
+	orig.PutUint64(commit.Put, 77777, 0xdeadbeef)
+	orig.PutOperation(commit.Delete, 1)
+	orig.PutBytes(commit.Put, 2, []byte("overwritten by the original's next use"))
+	s.checkViews("buffer-clone-after-reuse", cl, want, chunks, lbl, &vs)
 	// the same sequence on a recycled buffer (written, Reset, written again)
 	rb := s.used()
 	rb.Reset("col")
